@@ -127,6 +127,14 @@ theorem C04_refresh_top (P : Prog) (c0 c c1 c2 : Cfg) (h0 : Started c0) (hr : Re
    trace alone would need an event for the `processScreen` moment, which the model's trace does not
    record. -/
 
+open Ex in
+/-- the counterexample to "a refreshed entry is on top": the `setup` of screen 0 pushes screen 1; entry
+0 is refreshed after the push (no stack operation in between), while entry 1 is on top; it is not
+drawn -/
+example : sched (runFuel P8 300 c7).1 =
+    [.stackOp "schedule" [e 0 0], .stackOp "push" [e 0 0, e 1 1], .refresh (e 0 0), .refresh (e 1 1), .show (e 1 1)] := by
+  decide +kernel
+
 /-! ### when the stack becomes empty the application ends -/
 
 /-- `_process_screen`, the identity check after `refresh`, the end of `close_screen` and the end of
